@@ -383,8 +383,10 @@ def search(rng, tier, broken, corr):
     failures = []
     for key, (sig, what, code, origin, kw) in first.items():
         small = shrink_lines(code, sig, origin, kw) if origin != "history" else code
-        failures.append(Failure(sig, what + " | from: " + origin, {"code": small, "origin": origin, "kwargs": kw,
-                                                                   "must_complete": sig.get("kind") == "analysis-failed"}))
+        rp = {"code": small, "origin": origin, "kwargs": kw, "must_complete": sig.get("kind") == "analysis-failed"}
+        if small != code:
+            rp["unshrunk_code"] = code
+        failures.append(Failure(sig, what + " | from: " + origin, rp))
     info["distinct_nontrivial"] = len(nontrivial)
     info["samples"] = [f.replay["code"][:300] for f in failures][:3]
     return failures, info
